@@ -13,6 +13,7 @@ for dp, dns, fns in os.walk(os.path.join(root, "nrel", "hive")):
             rel = os.path.relpath(os.path.join(dp, fn), root)
             tree = ast.parse(open(os.path.join(dp, fn), encoding="utf-8").read())
             for qn, d, cls, outer in qualnames(tree):
-                out.append([rel, qn])
+                a = d.args
+                out.append([rel, qn, [x.arg for x in a.posonlyargs + a.args + a.kwonlyargs]])
 json.dump(sorted(out), open(os.path.join(os.path.dirname(os.path.dirname(os.path.abspath(__file__))), "hivecheck", "baseline_symbols.json"), "w"))
 print(len(out), "symbols")
